@@ -51,7 +51,10 @@ var lsClassNames = []string{`"\n"`, "// comment", "/* one-line */", "/* multi-li
 type lsEnv struct {
 	// applyDecorations
 	end, hasField, pkgComment bool
-	class                     lsClass
+	// isFile: the node is the *ast.File; isStart: the list is a Start list. The header comments are
+	// the lists with both (pkgComment = isFile && isStart)
+	isFile, isStart bool
+	class           lsClass
 	// applySpace
 	space       int64
 	bad, after  bool
@@ -552,7 +555,7 @@ func (v *lsEval) evalBool(s *lsState, x ast.Expr) (bool, bool) {
 						}
 						if o != nil && o == v.env.nameObj && lit == "Start" {
 							// name == "Start": only matters together with the node being a file
-							return v.env.pkgComment != neg, true
+							return v.env.isStart != neg, true
 						}
 					}
 				}
@@ -956,7 +959,7 @@ func (v *lsEval) stmt(s *lsState, st ast.Stmt) {
 						if tn == "File" && o != nil {
 							// isFile && name == "Start" is the package-comment environment: the file
 							// test alone is true exactly there (name == "Start" evaluates the same)
-							s.bools[o] = v.env.pkgComment
+							s.bools[o] = v.env.isFile
 							return
 						}
 					}
@@ -1508,7 +1511,8 @@ func (e *Env) lineStateApplyDecorations() {
 	states, steps, envRound := 0, 0, 0
 	for _, end := range []bool{false, true} {
 		for _, hasField := range []bool{false, true} {
-			for _, pkgComment := range []bool{false, true} {
+			for _, fileStart := range [][2]bool{{false, false}, {true, true}, {true, false}, {false, true}} {
+				pkgComment := fileStart[0] && fileStart[1]
 				for _, fresh0 := range []bool{false, true, false} {
 					// third round: the list follows a raw string literal that spans lines (the cursor
 					// is where it ended, not on a fresh line)
@@ -1516,8 +1520,8 @@ func (e *Env) lineStateApplyDecorations() {
 					if envRound++; envRound%3 == 0 {
 						afterRaw = true
 					}
-					env := &lsEnv{end: end, hasField: hasField, pkgComment: pkgComment, dObj: dObj, endObj: params[3], nodeObj: params[0], nameObj: params[1], decsObj: params[2]}
-					envName := fmt.Sprintf("end=%v, node has a Comment field=%v, package comment=%v, fresh line on entry=%v, directly behind a multi-line raw string=%v", end, hasField, pkgComment, fresh0, afterRaw)
+					env := &lsEnv{end: end, hasField: hasField, pkgComment: pkgComment, isFile: fileStart[0], isStart: fileStart[1], dObj: dObj, endObj: params[3], nodeObj: params[0], nameObj: params[1], decsObj: params[2]}
+					envName := fmt.Sprintf("end=%v, node has a Comment field=%v, node is the file=%v, Start list=%v, fresh line on entry=%v, directly behind a multi-line raw string=%v", end, hasField, fileStart[0], fileStart[1], fresh0, afterRaw)
 					ev := &lsEval{e: e, c: c, info: info, env: env}
 					s0 := newLsState(fresh0)
 					if afterRaw {
